@@ -216,7 +216,8 @@ CItem(it, host, o) ==
   IN (IF it.a # "none" THEN {"li:task"} \cup (IF ~o.gfm THEN {"opt:gfm-off"} ELSE {})
                                          \cup (IF ~o.tasks THEN {"opt:tasks-off"} ELSE {}) ELSE {})
      \cup (IF lists # {} THEN {"li:nest"} ELSE {})
-     \cup (IF Len(it.k) - Cardinality(lists) > 1 THEN {"li:multi"} ELSE {})
+     \* the item is more than one Word block (nested list, second paragraph, code)
+     \cup (IF Len(ItemsBlks(<<it>>, o)) > 1 THEN {"li:multi"} ELSE {})
      \cup UNION {CB(it.k[i], "li", host, o) : i \in 1..Len(it.k)}
 
 CB(b, par, host, o) ==
@@ -225,11 +226,12 @@ CB(b, par, host, o) ==
   IN
   CASE b.t = "h" -> me \cup (IF b.a = "setext" THEN {"h:setext"} ELSE {}) \cup CI(b.k, inner("h"), "", o)
     [] b.t = "p" -> me \cup CI(b.k, inner("p"), "", o)
-    [] b.t = "q" -> me \cup (IF Len(b.k) > 1 THEN {"q:multi"} ELSE {})
+    [] b.t = "q" -> me \cup (IF Len(Blk(b, o)) > 1 THEN {"q:multi"} ELSE {})     \* the quote is more than one Word block
                        \cup UNION {CB(b.k[i], "q", inner("q"), o) : i \in 1..Len(b.k)}
     [] b.t \in ListKinds -> me \cup UNION {CItem(b.k[i], inner("li"), o) : i \in 1..Len(b.k)}
     [] b.t \in {"fence", "icode"} ->
-         me \cup (IF b.a # "" THEN {"code:info"} ELSE {})
+         me \cup (IF host # "" THEN {host \o ">code"} ELSE {})
+            \cup (IF b.a # "" THEN {"code:info"} ELSE {})
             \cup (IF \E i \in 1..Len(b.k) : b.k[i].k = <<>> THEN {"code:blank"} ELSE {})
             \cup (IF \E i \in 1..Len(b.k) : b.k[i].a = "2" THEN {"code:ind"} ELSE {})
             \cup (IF \E i \in 1..Len(b.k) : b.k[i].a = "t" THEN {"code:tab"} ELSE {})
